@@ -1,7 +1,153 @@
-//! C25 — not built yet.
-use lv_common::Ctx;
+//! C25 — the syncer never (re-)requests history behind a pruned window edge.
+//!
+//! The real `Syncer` runs over a mocked `P2p` and an `InMemoryStore` (see `syncer_sim.rs`). A
+//! generated schedule plays the network (honest / prefix / error answers in any order, new
+//! header-sub heads, disconnect / reconnect), the daser (`mark_as_sampled`) and the pruner
+//! (`remove_height`). A fixed epilogue then drives every history into the situation the property
+//! is about: serve the syncer until it stops at the sampling-window edge, let the pruner remove
+//! the header that bounds the window, wake the syncer up with a new head.
+//!
+//! Oracle, for every batch the syncer starts (`FetchingHeadersStarted`), judged against the store
+//! state the batch was computed in:
+//!  * the C24 batch predicate;
+//!  * if the height directly above the batch is synced (stored or pruned), that header — by the
+//!    chain's own timestamp, whether still stored or already pruned — is inside the sampling window;
+//!  * the same batch is not requested 4 times in a row when every attempt was served completely
+//!    and honestly and the store did not change in between.
 
-pub fn run(_ctx: &mut Ctx) {
-    eprintln!("C25: check not built yet");
-    std::process::exit(2);
+use lv_common::prelude::*;
+
+use crate::syncer_sim::{PrunePref, Scenario, Sim, Sizes, rs_contains, rs_union, run_paused, scenario_strategy};
+
+const PROP: &str = "C25";
+const RESERVE: u64 = 12;
+
+async fn epilogue(sim: &mut Sim, obs: &mut Obs<'_>) -> Result<(), Failure> {
+    sim.head_cap = sim.lay.total;
+    sim.step_no += 1;
+    sim.note("epilogue".into());
+    if sim.peers == 0 || sim.trusted == 0 {
+        sim.connect(true);
+        sim.settle(1500).await;
+        sim.observe(obs, PROP).await?;
+    }
+    // 1. serve honestly until the syncer has nothing more to ask (daser keeps up, header-sub
+    //    keeps poking so that slow sync re-evaluates)
+    for round in 0..6 {
+        sim.serve_batches(400, obs, PROP).await?;
+        sim.settle(100_000).await;
+        sim.observe(obs, PROP).await?;
+        if sim.pending.is_empty() {
+            if round >= 1 {
+                break;
+            }
+            sim.sample_all().await?;
+            sim.new_head(1, obs);
+            sim.settle(1500).await;
+            sim.observe(obs, PROP).await?;
+        }
+    }
+    let (stored, pruned, _) = sim.snapshot().await?;
+    let synced = rs_union(&stored, &pruned);
+    if let Some(&(top_s, _)) = synced.last() {
+        let below_missing = top_s > 1 && !rs_contains(&synced, top_s - 1);
+        if sim.pending.is_empty() && below_missing && rs_contains(&stored, top_s) && !sim.lay.in_sampling_window(top_s) {
+            // the syncer stopped below a stored header that is older than the window
+            obs.label("stopped-at-stored-window-edge");
+        }
+        if sim.pending.is_empty() && top_s == 1 {
+            obs.label("synced-to-genesis");
+        }
+    }
+    // 2. the pruner removes the header(s) bounding the window (only what the real pruner may remove)
+    sim.step_no += 1;
+    sim.prune(0, PrunePref::TopLowerEdge, 2, true, obs).await?;
+    sim.settle(1500).await;
+    sim.observe(obs, PROP).await?;
+    // 3. wake the syncer up: a new head arrives by header-sub, then keep serving
+    for _ in 0..3 {
+        sim.step_no += 1;
+        sim.new_head(1, obs);
+        sim.settle(1500).await;
+        sim.observe(obs, PROP).await?;
+        sim.serve_batches(6, obs, PROP).await?;
+    }
+    Ok(())
+}
+
+fn case(sc: &Scenario, obs: &mut Obs<'_>) -> Result<(), Failure> {
+    run_paused(async {
+        let mut sim = Sim::start(sc, RESERVE, obs).await?;
+        let mut r = sim.observe(obs, PROP).await;
+        if r.is_ok() {
+            for st in &sc.steps {
+                r = sim.step(st, obs, PROP).await;
+                if r.is_err() {
+                    break;
+                }
+            }
+        }
+        if r.is_ok() {
+            r = epilogue(&mut sim, obs).await;
+        }
+        if r.is_ok() {
+            if sim.edge_pruned {
+                obs.label("case-pruned-window-edge");
+            }
+            if sim.wild_prune {
+                obs.label("case-with-illegal-prune");
+            }
+            // non-trivial: the window-bounding edge was pruned while older history is missing and
+            // the syncer re-evaluated what to fetch afterwards
+            let nontrivial = sim.edge_pruned_then_triggered;
+            if nontrivial {
+                obs.label("trigger-after-edge-prune");
+            }
+            obs.eval(nontrivial.then(|| digest_of(sc)));
+            obs.label_n("batches-started", sim.batches_started);
+        }
+        sim.shutdown().await;
+        r
+    })
+}
+
+pub fn run(ctx: &mut Ctx) {
+    ctx.assume("the sim replaces P2p by lumina's own mock (P2p::verif_mocked, a copy of the cfg(test) P2p::mocked): header-ex validation and libp2p are not in the loop; answers are limited to what the header-ex client lets through");
+    ctx.assume("header timestamps sit at least 15 min (mostly >= 1 h) away from every window cutoff; the syncer reads the wall clock, the run takes seconds");
+    ctx.assume("pruner model: removes stored heights beyond both windows, or (pruning window < sampling window) sampled non-edge heights beyond the pruning window — as Pruner::get_next_prunable_batch; prunes outside this model are generated too but then only the window rule and the C24 predicate are asserted");
+    ctx.assume("select!/backoff randomness inside the syncer is not controlled; the property must hold for every such choice");
+    ctx.essential(&[
+        "pruned-window-edge",
+        "trigger-after-edge-prune",
+        "stopped-at-stored-window-edge",
+        "batch-below-top",
+        "batch-forward",
+        "request-below-stored-in-window",
+        "answer-prefix",
+        "answer-error",
+        "reconnect",
+        "header-sub-appended",
+    ]);
+    ctx.set_shrink_iters(400);
+    let thorough = ctx.tier == Tier::Thorough;
+    let cases = ctx.tier.pick(3000, 15000);
+    ctx.proptest(
+        "syncer-window-edge",
+        "generated chain (zones older than both windows / between the cutoffs / inside), initial store content, batch size 4..64, schedule of answers (honest/prefix/error), prunes, samples, new heads, disconnect/reconnect, then a fixed epilogue (serve to quiescence, prune the top range's lower edge, announce new heads); one evaluation per batch the syncer starts; a case is non-trivial (digest of the recipe) when a pruner-legal prune removed the out-of-window lower edge of the top synced range while history below it is missing and the syncer re-evaluated fetch_next_batch afterwards",
+        cases,
+        move || {
+            scenario_strategy(
+                Sizes {
+                    max_a: 80,
+                    max_b: 40,
+                    min_c: 35,
+                    max_c: if thorough { 300 } else { 190 },
+                    max_steps: if thorough { 60 } else { 40 },
+                },
+                false,
+                true,
+            )
+        },
+        case,
+    );
 }
